@@ -330,9 +330,12 @@ lys_compile_iffeature(const struct ly_ctx *ctx, const struct lysp_qname *qname, 
         if (c[i] == '(') {
             j++;
             checkversion = 1;
+            /* "not" operations cancel each other only when directly adjacent */
+            last_not = 0;
             continue;
         } else if (c[i] == ')') {
             j--;
+            last_not = 0;
             continue;
         } else if (isspace(c[i])) {
             checkversion = 1;
